@@ -187,7 +187,17 @@ fn seq_oracle(text: Option<&str>, script: &[(String, bool)], got: &[Got]) -> Res
 fn do_line(out: &mut Out, line: &str) {
 	let w: Vec<&str> = line.split(' ').collect();
 	let text: Option<String> = if w[1] == "none" { None } else { Some(String::from_utf8(unhex(w[1])).unwrap()) };
-	let params = Params::new(text.as_deref());
+	let borrowed = Params::new(text.as_deref());
+	// every third line reads from an owned copy (`Params::into_owned`), which must behave identically;
+	// the accessors must reflect the text the reader was built from
+	let accessors_ok = borrowed.as_str().map(|s| s.len()) == Some(borrowed.len_bytes()) || (borrowed.as_str().is_none() && borrowed.len_bytes() == 0);
+	let owned_variant = out.ops.len() % 3 == 2;
+	let params = if owned_variant { borrowed.clone().into_owned() } else { borrowed.clone() };
+	if params.as_str() != borrowed.as_str() || params.is_object() != borrowed.is_object() || !accessors_ok {
+		out.line(line.into(), "ACCESSORS".into(), Err(format!("Params accessors disagree: as_str {:?} vs {:?}, len_bytes {}", params.as_str(), borrowed.as_str(), borrowed.len_bytes())), true);
+		return;
+	}
+	out.count(if owned_variant { "params.owned" } else { "params.borrowed" });
 	match w[0] {
 		"seq" => {
 			let script: Vec<(String, bool)> = w[2..].iter().map(|s| (s[2..].to_string(), s.starts_with("o:"))).collect();
